@@ -11,6 +11,5 @@ Lemma pins_C04_lemma :
   pinned_tz_tzoffset_utcoffset = true /\
   pinned_tz_tzoffset_dst = true /\
   pinned_tz_tzoffset_fromutc = true /\
-  pinned__common__tzinfo_is_ambiguous = true /\
   pinned__common__tzinfo__fold = true.
 Proof. repeat split; reflexivity. Qed.
